@@ -66,11 +66,26 @@ OrderOk(order) ==
     /\ \A i \in 1 .. Len(order) : order[i] \in {"addOrUpdateKeyTableEntry", "importLinkKey", "setChildData"} => i < Pos(order, "formNetwork")
     /\ Before(order, "clearKeyTable", "setInitialSecurityState")
 
-Clauses == {"SecurityStateExact", "StoreHolds", "RoundTrip", "OrderOk", "Completed"}
+(* the node's own address: reading back reports the address the NCP runs with; where the NCP can take a   *)
+(* new address (rewritable token, or permission to burn the write-once token while it is blank) and the  *)
+(* supplied address is known, the NCP runs with the supplied address after the write - also when the     *)
+(* same settings are restored a second time                                                              *)
+NodeAddress(w, st, r) ==
+    /\ r.ieee = st.eui
+    /\ ((w.ieeeKnown = 1 /\ w.canSet = 1) => st.eui = w.ieee)
+(* the trust centre of a network formed by this node is the node itself: when the supplied trust-centre  *)
+(* address is the supplied node address, the address given in the security state is the address the NCP  *)
+(* really runs with (not a stale or unwritten one), and it is read back as the link key's partner        *)
+TcAddress(w, sec, st, r) ==
+    (w.tcSelf = 1) => (sec.flagTcEui = 1 /\ sec.tcEui = st.eui /\ r.tcPartner = st.eui)
+
+Clauses == {"SecurityStateExact", "StoreHolds", "RoundTrip", "OrderOk", "Completed", "NodeAddress", "TcAddress"}
 Violated(e) == {c \in Clauses :
     ~(CASE c = "SecurityStateExact" -> (e.completed = 1 => SecurityStateExact(e.ver, e.w, e.sec))
         [] c = "StoreHolds" -> (e.completed = 1 => StoreHolds(e.ver, e.w, e.st))
         [] c = "RoundTrip" -> (e.completed = 1 => RoundTrip(e.ver, e.w, e.r))
         [] c = "OrderOk" -> (e.completed = 1 => OrderOk(e.order))
+        [] c = "NodeAddress" -> (e.completed = 1 => NodeAddress(e.w, e.st, e.r))
+        [] c = "TcAddress" -> (e.completed = 1 => TcAddress(e.w, e.sec, e.st, e.r))
         [] c = "Completed" -> e.completed = 1)}
 =============================================================================
